@@ -165,6 +165,8 @@ class FakeGH:
         p['open'] = False
         self.next_sha += 1
         self.main = self.next_sha
+        # GitHub has applied the merge; the response is still on its way: events that reach CI right now
+        await self.h.after_merge()
         return {}
 
 
@@ -280,6 +282,7 @@ class History:
         self.delivered = None          # the latest GitHub webhook / poll delivered to CI: time, pass, GitHub's PRs at that moment
         self.last_ok_refresh_start = -1
         self.failed_refresh_times = []
+        self.inplace = bool(case.get('inplace'))    # overlapping notifications are delivered at the await itself; no model comparison
         self.refreshed_since_merge = True
         self.ci_sent = {}      # head sha -> last ci-test state CI sent (whether or not the request reached GitHub)
 
@@ -288,6 +291,12 @@ class History:
         self.api_count += 1
         self.clock += 1
         due = [op for (k, op) in self.mid if k == self.api_count]
+        for op in due:
+            await self.apply(op, nested=True)
+
+    async def after_merge(self):
+        due = [op for (k, op) in self.mid if k == 'merge']
+        self.mid = [(k, op) for (k, op) in self.mid if k != 'merge']     # once
         for op in due:
             await self.apply(op, nested=True)
 
@@ -607,6 +616,18 @@ class History:
                 self.delivered = {'time': self.clock, 'pass': self.pass_id, 'entry': not nested, 'prs': copy.deepcopy(gh.prs)}
                 if nested:
                     self.tags.append('webhook-mid-block')
+            if nested and self.inplace:
+                # the entry point is called at this very await of the running pass; if the code starts a second, concurrent pass it runs
+                # here while the first one is suspended.  Exceptions of that pass stay in it (they never reach the suspended one).
+                self.tags.append('overlapping-notify')
+                was_updating = self.wb.updating
+                try:
+                    await f(self.db, self.bc, gh, False)
+                except BaseException:
+                    pass
+                if was_updating and not self.wb.updating:
+                    self.tags.append('updating-flag-cleared-by-overlap')
+                return
             if self.in_block:
                 self.pending_flags.append((kind, f))
                 return
@@ -723,8 +744,10 @@ class C30(Prop):
                   'branch). Correspondence is differential: the real WatchedBranch/PR objects are dumped after every block of the _update '
                   'loop and compared with the model fed with the answers the fakes gave (hundreds of generated histories per run incl. '
                   're-entrant notifications and world changes in the middle of an update); re-entrant entry-point calls are performed at '
-                  'block boundaries (flag assignments commute with the rest of a block).')
-    budget = {'quick': 500, 'thorough': 8000}
+                  'block boundaries (flag assignments commute with the rest of a block). Histories marked `inplace` deliver two or more '
+                  'overlapping notifications at the await itself (also inside the merge request, after GitHub applied the merge) so that a pass '
+                  'the code wrongly starts runs concurrently; these are judged by the oracle only (no model comparison).')
+    budget = {'quick': 800, 'thorough': 10000}
     search_budget = {'quick': 600, 'thorough': 8000}
     rule = ('case = history of world events (open/push/close PR, review decision, labels, status of an external check, target-branch push, '
             'batch completion, scripted checkout failure / merge rejection / failing GitHub refresh (branch ref or the GraphQL query of one PR) / failing status post / failing batch listing) and CI entry points (github webhook, batch callback, periodic '
@@ -782,9 +805,14 @@ class C30(Prop):
         return self._cache[k]
 
     def model_lines(self, c):
+        if c.get('inplace'):
+            return ['reset']      # truly overlapping passes have no place in the model's event order: these histories are for the oracle only
         return ['reset'] + self.run_history(c).model_lines
 
     def impl(self, c):
+        if c.get('inplace'):
+            self.run_history(c)
+            return ['ok']
         return ['ok'] + self.run_history(c).impl_lines
 
     def oracle(self, c, out):
@@ -933,6 +961,22 @@ class C30(Prop):
         ops += [['notify_gh', []], ['done', 0, 1], ['notify_batch', []], ['update', []]]
         return {'ci_required': rng.random() < 0.7, 'ci_last': False, 'order_desc': False, 'ops': ops}
 
+    def gen_overlap(self, rng):
+        """several PRs mergeable against the same target; while a pass is suspended at an await (inside the merge request after GitHub
+        applied it, or at the k-th API call) TWO OR MORE notifications arrive; delivered in place, so a pass the code wrongly starts
+        runs concurrently with the suspended one"""
+        k = rng.choice([2, 2, 3])
+        ops = [['open', i, 500 + 10 * i, 1, '00000'] for i in range(1, k + 1)]
+        ops += [['review', i, 'APPROVED'] for i in range(1, k + 1)]
+        ops.append(['notify_gh', []])
+        ops += [['done', 0, 1] for _ in range(k)]
+        n_over = rng.choice([1, 2, 2, 3])
+        where = rng.choice(['merge', 'merge', 'merge', rng.randint(1, 8)])
+        kinds = [rng.choice([['notify_batch'], ['notify_batch'], ['notify_gh'], ['update']]) for _ in range(n_over)]
+        ops.append([rng.choice(['notify_batch', 'notify_batch', 'update']), [[where, kd] for kd in kinds]])
+        ops += [['notify_batch', []], ['update', []], ['done', 0, 1], ['done', 0, 1], ['notify_batch', []], ['update', []]]
+        return {'ci_required': True, 'ci_last': False, 'order_desc': rng.random() < 0.3, 'inplace': True, 'ops': ops}
+
     def gen_running_check(self, rng):
         """everything about the PR is mergeable except that ANOTHER required check run on its head is still queued / in progress
         (conclusion null); later it concludes"""
@@ -1032,21 +1076,12 @@ class C30(Prop):
         return {'ci_required': rng.random() < 0.7, 'ci_last': False, 'order_desc': rng.random() < 0.3, 'ops': ops}
 
     def cases(self, rng, n, tier):
+        # half of the histories are free random ones, the other half rotate through the eight directed scenario families
+        directed = [self.gen_many_contexts, self.gen_push_after_green, self.gen_review_during_build, self.gen_running_check,
+                    self.gen_overlap, self.gen_mid_refresh, self.gen_push_race, self.gen_directed]
         for i in range(n):
-            if i % 8 == 1:
-                yield self.gen_many_contexts(rng)
-            elif i % 8 == 6:
-                yield self.gen_push_after_green(rng)
-            elif i % 8 == 2:
-                yield self.gen_review_during_build(rng)
-            elif i % 8 == 4:
-                yield self.gen_running_check(rng)
-            elif i % 8 == 5:
-                yield self.gen_mid_refresh(rng)
-            elif i % 8 == 3:
-                yield self.gen_push_race(rng)
-            elif i % 8 == 7:
-                yield self.gen_directed(rng)
+            if i % 2 == 1:
+                yield directed[(i // 2) % len(directed)](rng)
             else:
                 yield self.gen_history(rng, rng.choice([6, 10, 16, 24, 40]))
 
